@@ -20,7 +20,7 @@
  *   h_cred --mat DIR --root DIR --family F --replay 'S:def,RWK,C:def/inh'            (one history, verbose)
  *   h_cred --mat DIR --root DIR --family F --list                                    (alphabet)
  *
- * families: main | files | attrs | kube | netns | split | bad:file:<kind>:<item> | bad:value:<kind>:<item>
+ * families: main | files | attrs | kube | netns | netcrl | split | bad:file:<kind>:<item> | bad:value:<kind>:<item>
  */
 #define _GNU_SOURCE
 #include "hcommon.h"
@@ -77,6 +77,11 @@ static char *g_leafI, *g_inter, *g_keyI; /* leaf issued by an intermediate, the 
 static char *g_root, *g_root2;
 static char *g_s1_cert, *g_s2_key, *g_s3_key, *g_tc_both;   /* equal-concatenation splits */
 static X509 *g_x_root, *g_x_root2, *g_x_inter;
+/* CRL checking (netcrl family): a root-issued leaf that one of the CRL bundles revokes, and three CRL bundles */
+static char *g_rev_cert, *g_rev_key;
+static X509 *g_x_rev;
+enum { CRL_NONE_REVOKED, CRL_REVOKING, CRL_ROOT2, NCRL };
+static char *g_crl[NCRL];
 
 static char g_mat[400], g_root_dir[400];
 
@@ -126,6 +131,12 @@ static void load_material(void)
     g_keyI = load_text("%s/I/key.pem", g_mat);
     g_root = load_text("%s/root.pem", g_mat);
     g_root2 = load_text("%s/root2.pem", g_mat);
+    g_rev_cert = load_text("%s/R/cert.pem", g_mat);
+    g_rev_key = load_text("%s/R/key.pem", g_mat);
+    g_crl[CRL_NONE_REVOKED] = load_text("%s/crl_empty.pem", g_mat);
+    g_crl[CRL_REVOKING] = load_text("%s/crl_rev.pem", g_mat);
+    g_crl[CRL_ROOT2] = load_text("%s/crl_r2.pem", g_mat);
+    g_x_rev = parse_one(g_rev_cert);
     g_s1_cert = cat2(g_leafI, g_inter);
     g_s2_key = cat2(g_inter, g_keyI);
     g_s3_key = cat2(g_set[SET_A][IT_KEY], g_root2);
@@ -156,12 +167,46 @@ struct ident {
     int has_inter;          /* chain carries the intermediate */
     unsigned trust;         /* bit0 root, bit1 root2 */
     const char *why;        /* why not ok */
+    int is_rev;             /* presents the leaf that CRL_REVOKING revokes */
+    int check_crl;          /* verifies its peer against the designated CRLs */
+    unsigned crl_cover;     /* issuers the designated CRLs come from: bit0 root, bit1 root2 */
+    int crl_revokes_rev;    /* the designated CRLs revoke that leaf */
 };
 
-static void ref_eval(const char *cert, const char *key, const char *tc, struct ident *id)
+static void ref_eval(const char *cert, const char *key, const char *tc, int check_crl, const char *crl, struct ident *id)
 {
     memset(id, 0, sizeof *id);
     id->why = "";
+    id->check_crl = check_crl;
+    if (check_crl) {
+        /* the designated CRL bundle, read with the CRL primitives */
+        if (!crl) {
+            id->why = "unreadable";
+            return;
+        }
+        BIO *cb = BIO_new_mem_buf(crl, -1);
+        X509_CRL *l;
+        int n = 0;
+        while ((l = PEM_read_bio_X509_CRL(cb, NULL, 0, NULL)) != NULL) {
+            n++;
+            X509_NAME *iss = X509_CRL_get_issuer(l);
+            if (X509_NAME_cmp(iss, X509_get_subject_name(g_x_root)) == 0) {
+                id->crl_cover |= 1;
+                X509_REVOKED *rv = NULL;
+                if (g_x_rev && X509_CRL_get0_by_cert(l, &rv, g_x_rev) == 1)
+                    id->crl_revokes_rev = 1;
+            }
+            if (X509_NAME_cmp(iss, X509_get_subject_name(g_x_root2)) == 0)
+                id->crl_cover |= 2;
+            X509_CRL_free(l);
+        }
+        BIO_free(cb);
+        ERR_clear_error();
+        if (n == 0) {
+            id->why = "crl-malformed";
+            return;
+        }
+    }
     if (!cert || !key || !tc) {
         id->why = "unreadable";
         return;
@@ -175,10 +220,48 @@ static void ref_eval(const char *cert, const char *key, const char *tc, struct i
         return;
     }
     X509 *c;
-    while ((c = PEM_read_bio_X509(b, NULL, 0, NULL)) != NULL) {
-        if (X509_cmp(c, g_x_inter) == 0)
-            id->has_inter = 1;
-        X509_free(c);
+    /* the blocks after the leaf, one by one, with the generic PEM reader and d2i_X509 (not with the error-queue
+       inspection install_cert() uses): a block under a certificate label must decode completely; armour or base64
+       damage anywhere is malformed; blocks under other labels are not certificates and are passed over, as every
+       PEM consumer does (RFC 7468) */
+    for (;;) {
+        char *name = NULL, *hdr = NULL;
+        unsigned char *der = NULL;
+        long len = 0;
+        if (!PEM_read_bio(b, &name, &hdr, &der, &len)) {
+            unsigned long err = ERR_peek_last_error();
+            int at_end = ERR_GET_LIB(err) == ERR_LIB_PEM && ERR_GET_REASON(err) == PEM_R_NO_START_LINE;
+            ERR_clear_error();
+            if (!at_end) {
+                BIO_free(b);
+                X509_free(leaf);
+                id->why = "chain-malformed";
+                return;
+            }
+            break;
+        }
+        int is_cert = !strcmp(name, PEM_STRING_X509) || !strcmp(name, PEM_STRING_X509_OLD) ||
+                      !strcmp(name, PEM_STRING_X509_TRUSTED);
+        int bad = 0;
+        if (is_cert) {
+            const unsigned char *q = der;
+            c = d2i_X509(NULL, &q, len);
+            if (!c || q != der + len)
+                bad = 1;
+            else if (X509_cmp(c, g_x_inter) == 0)
+                id->has_inter = 1;
+            X509_free(c);
+        }
+        OPENSSL_free(name);
+        OPENSSL_free(hdr);
+        OPENSSL_free(der);
+        ERR_clear_error();
+        if (bad) {
+            BIO_free(b);
+            X509_free(leaf);
+            id->why = "chain-malformed";
+            return;
+        }
     }
     BIO_free(b);
     ERR_clear_error();
@@ -222,6 +305,7 @@ static void ref_eval(const char *cert, const char *key, const char *tc, struct i
         memcpy(id->ski, ASN1_STRING_get0_data(ski), id->ski_len);
     }
     X509_NAME_get_text_by_NID(X509_get_subject_name(leaf), NID_commonName, id->cn, sizeof id->cn);
+    id->is_rev = g_x_rev && X509_cmp(leaf, g_x_rev) == 0;
     X509_NAME *iss = X509_get_issuer_name(leaf);
     if (X509_NAME_cmp(iss, X509_get_subject_name(g_x_root)) == 0)
         id->issuer = 1;
@@ -233,9 +317,18 @@ static void ref_eval(const char *cert, const char *key, const char *tc, struct i
     id->ok = 1;
 }
 
-/* does a verifier with trust set `trust` accept what `x` presents */
-static int ref_accepts(const struct ident *x, unsigned trust)
+/* does verifier `v` accept what `x` presents: chain to a trusted root and, with CRL checking on, a CRL of the
+   issuer at hand that does not list the certificate */
+static int ref_accepts(const struct ident *x, const struct ident *v)
 {
+    unsigned trust = v->trust;
+    if (v->check_crl) {
+        unsigned need = x->issuer == 2 ? 2 : 1;
+        if (!(v->crl_cover & need))
+            return 0;
+        if (x->is_rev && v->crl_revokes_rev)
+            return 0;
+    }
     switch (x->issuer) {
     case 1: return (trust & 1) != 0;
     case 2: return (trust & 2) != 0;
@@ -285,8 +378,15 @@ static const char *NS_SUFFIX[3] = { "", "_nsA", "_nsB" };
 static const int NS_SET[3] = { 2 /* SET_C: its own trust domain */, 0 /* SET_A */, 1 /* SET_B */ };
 static int g_use_netns;
 static int g_nsfd[3] = { -1, -1, -1 };
-enum badkind { BK_NONE, BK_MISSING, BK_EMPTY, BK_GARBAGE, BK_TRUNC, BK_DANGLING, BK_DIR, BK_MISMATCH };
-static const char *BK_NAME[] = { "none", "missing", "empty", "garbage", "trunc", "dangling", "dir", "mismatch" };
+enum badkind { BK_NONE, BK_MISSING, BK_EMPTY, BK_GARBAGE, BK_TRUNC, BK_DANGLING, BK_DIR, BK_MISMATCH, BK_CHAIN };
+static const char *BK_NAME[] = { "none", "missing", "empty", "garbage", "trunc", "dangling", "dir", "mismatch", "chain" };
+/* BK_CHAIN: the certificate item is the leaf issued by the intermediate, followed by one or two extra PEM blocks; the
+   shape names them: G well-formed certificate (intermediate, then root), T armour and base64 intact but the DER cut
+   short, F DER with its first octet flipped, E armour with an empty body, W the intermediate under a foreign label.
+   Key and trust bundle are the leaf's own.  (The item may be perfectly valid, e.g. shape G: the model decides.) */
+static char g_chain_shape[8];
+static char g_bk_label[24];       /* "chain-TG" etc. for signatures */
+static char *g_chain_text;
 static const char GARBAGE[] = "-----BEGIN CERTIFICATE-----\nthis is not base64 at all !!\n-----END CERTIFICATE-----\n";
 
 /* family parameters */
@@ -307,15 +407,19 @@ struct world {
     int kdata;         /* generation ..data points to (0, 1) */
     int gen_set[2];    /* SET_A / SET_B: certificate and key of generation g */
     int gen_tc[2];     /* trust bundle of generation g: 0 = root2+root, 1 = root only */
+    int crl_ns[3];     /* netcrl family: which CRL bundle crl.pem, crl_nsA.pem, crl_nsB.pem hold */
 };
 
-static const struct world WORLD0 = { SET_A, 0, SET_B, SET_A, D_LIVE, 0, { SET_A, SET_B }, { 0, 1 } };
+static const struct world WORLD0 = { SET_A, 0, SET_B, SET_A, D_LIVE, 0, { SET_A, SET_B }, { 0, 1 },
+                                     { CRL_ROOT2, CRL_REVOKING, CRL_NONE_REVOKED } };
+static int g_use_crl;
 static int g_use_kube;
 
 /* text of a bad item (NULL: unreadable) */
 static const char *bad_text(int item)
 {
     switch (g_bad_kind) {
+    case BK_CHAIN: return item == IT_CERT ? g_chain_text : item == IT_KEY ? g_keyI : g_root;
     case BK_EMPTY: return "";
     case BK_GARBAGE: return GARBAGE;
     case BK_TRUNC: return g_trunc[item];
@@ -324,17 +428,25 @@ static const char *bad_text(int item)
     }
 }
 
+/* the CRL file of directory dir (only the namespace-named files of nsd/ exist) */
+static const char *vfs_crl(const struct world *w, int dir)
+{
+    if (dir >= D_NS0 && dir <= D_NSB)
+        return g_crl[w->crl_ns[dir - D_NS0]];
+    return NULL;
+}
+
 /* what the path dir/item holds in world w: its text, or NULL when it cannot be read */
 static const char *vfs_content(const struct world *w, int dir, int item)
 {
     switch (dir) {
     case D_LIVE:
-        if (w->live_broken && item == g_bad_item)
+        if (w->live_broken && (item == g_bad_item || (g_bad_kind == BK_CHAIN && item == IT_KEY)))
             return bad_text(item);
         return g_set[w->live_set][item];
     case D_LINK: return g_set[w->link_set][item];
     case D_FLINK: return g_set[w->flink_set][item];
-    case D_BAD: return item == g_bad_item ? bad_text(item) : g_set[SET_A][item];
+    case D_BAD: return item == g_bad_item || g_bad_kind == BK_CHAIN ? bad_text(item) : g_set[SET_A][item];
     case D_SA: return g_set[SET_A][item];
     case D_SB: return g_set[SET_B][item];
     case D_NS0: case D_NSA: case D_NSB: return g_set[NS_SET[dir - D_NS0]][item];
@@ -354,10 +466,10 @@ static const char *vfs_content(const struct world *w, int dir, int item)
 /* ------------------------------------------------------------------------------------------ */
 enum { F_NONE, F_FILE, F_VALUE };
 struct ditem { int form; int dir; const char *val; };
-struct desig { struct ditem it[NIT]; };
+struct desig { struct ditem it[NIT]; int check_crl; struct ditem crl; };
 
-enum cfg { CFG_DEF, CFG_INH, CFG_FILE, CFG_VAL, CFG_S1, CFG_S2, CFG_S3, CFG_S4, CFG_S5, CFG_C2, CFG_BADF, CFG_BADV, CFG_KUBE, NCFG };
-static const char *CFG_NAME[NCFG] = { "def", "inh", "file", "val", "s1", "s2", "s3", "s4", "s5", "c2", "badf", "badv", "kube" };
+enum cfg { CFG_DEF, CFG_INH, CFG_FILE, CFG_VAL, CFG_S1, CFG_S2, CFG_S3, CFG_S4, CFG_S5, CFG_C2, CFG_BADF, CFG_BADV, CFG_KUBE, CFG_DEFCRL, CFG_REV, NCFG };
+static const char *CFG_NAME[NCFG] = { "def", "inh", "file", "val", "s1", "s2", "s3", "s4", "s5", "c2", "badf", "badv", "kube", "defcrl", "rev" };
 
 static void desig_values(struct desig *d, const char *cert, const char *key, const char *tc)
 {
@@ -391,9 +503,13 @@ static void cfg_desig(int cfg, struct desig *d)
         for (int i = 0; i < NIT; i++)
             d->it[i] = (struct ditem){ F_FILE, D_KUBE, NULL };
         break;
+    case CFG_DEFCRL: d->check_crl = 1; break;     /* tls.check_crl=true, every file left to the default naming */
+    case CFG_REV: desig_values(d, g_rev_cert, g_rev_key, g_root); break;   /* the peer CRL_REVOKING revokes */
     case CFG_BADV:
         desig_values(d, g_set[SET_A][IT_CERT], g_set[SET_A][IT_KEY], g_set[SET_A][IT_TC]);
         d->it[g_bad_item].val = bad_text(g_bad_item);
+        if (g_bad_kind == BK_CHAIN)
+            desig_values(d, bad_text(IT_CERT), bad_text(IT_KEY), bad_text(IT_TC));
         break;
     }
 }
@@ -404,6 +520,8 @@ static void desig_finalize(struct desig *d, int env_dir)
     for (int i = 0; i < NIT; i++)
         if (d->it[i].form == F_NONE)
             d->it[i] = (struct ditem){ F_FILE, env_dir, NULL };
+    if (d->check_crl && d->crl.form == F_NONE)
+        d->crl = (struct ditem){ F_FILE, env_dir, NULL };
 }
 
 /* a = what `over` sets, else what `base` has */
@@ -412,6 +530,10 @@ static void desig_override(struct desig *base, const struct desig *over)
     for (int i = 0; i < NIT; i++)
         if (over->it[i].form != F_NONE)
             base->it[i] = over->it[i];
+    if (over->check_crl)
+        base->check_crl = 1;
+    if (over->crl.form != F_NONE)
+        base->crl = over->crl;
 }
 
 /* evaluate a finalized designation against the file contents of world w */
@@ -420,7 +542,10 @@ static void desig_eval(const struct desig *d, const struct world *w, struct iden
     const char *t[NIT];
     for (int i = 0; i < NIT; i++)
         t[i] = d->it[i].form == F_VALUE ? d->it[i].val : vfs_content(w, d->it[i].dir, i);
-    ref_eval(t[IT_CERT], t[IT_KEY], t[IT_TC], id);
+    const char *crl = NULL;
+    if (d->check_crl)
+        crl = d->crl.form == F_VALUE ? d->crl.val : vfs_crl(w, d->crl.dir);
+    ref_eval(t[IT_CERT], t[IT_KEY], t[IT_TC], d->check_crl, crl, id);
 }
 
 /* ------------------------------------------------------------------------------------------ */
@@ -435,9 +560,10 @@ enum opk { OP_RWF, OP_RWK, OP_MVO, OP_FLD, OP_FLF, OP_ENV, OP_BRK, OP_FIX, OP_SR
            OP_KTM,     /* rename a new trust bundle over it */
            OP_ENK,     /* XCM_TLS_CERT: kube <-> live */
            OP_SN,      /* netns family: the main thread enters namespace c1 (setns) */
-           OP_FK };    /* netns family: fork; the rest of the history runs in the child, which first enters namespace c1 */
+           OP_FK,      /* netns family: fork; the rest of the history runs in the child, which first enters namespace c1 */
+           OP_SWC };   /* netcrl family: crl_nsA.pem and crl_nsB.pem swap contents (new files renamed over) */
 static const char *OPK_NAME[] = { "RWF", "RWK", "MVO", "FLD", "FLF", "ENV", "BRK", "FIX", "S", "C", "X", "XS",
-                                  "KDP", "KRW", "KMV", "KTW", "KTM", "ENK", "SN", "FK" };
+                                  "KDP", "KRW", "KMV", "KTW", "KTM", "ENK", "SN", "FK", "SWC" };
 struct op { int k, c1, c2; int t; /* socket op on a fresh thread that first enters namespace t (-1: calling thread) */ char tok[24]; };
 
 #define MAXOPS 32
@@ -472,8 +598,60 @@ static void add_op_thread(int k, int c1, int c2, int ns)
     snprintf(o->tok + l, sizeof o->tok - l, "@t%s", NS_NAME[ns]);
 }
 
+/* PEM block with the given label around DER bytes */
+static char *pem_block(const char *label, const unsigned char *der, int len)
+{
+    char *b64 = malloc(4 * ((len + 2) / 3) + 4);
+    int n = len ? EVP_EncodeBlock((unsigned char *)b64, der, len) : 0;
+    char *out = malloc(n + n / 64 + 200), *o = out;
+    o += sprintf(o, "-----BEGIN %s-----\n", label);
+    for (int i = 0; i < n; i += 64)
+        o += sprintf(o, "%.*s\n", n - i < 64 ? n - i : 64, b64 + i);
+    sprintf(o, "-----END %s-----\n", label);
+    free(b64);
+    return out;
+}
+
+static int build_chain(const char *shape)
+{
+    size_t ns = strlen(shape);
+    if (ns < 1 || ns > 2 || strspn(shape, "GTFEW") != ns)
+        return -1;
+    snprintf(g_chain_shape, sizeof g_chain_shape, "%s", shape);
+    BIO *b = BIO_new_mem_buf(g_inter, -1);
+    char *name = NULL, *hdr = NULL;
+    unsigned char *der = NULL;
+    long len = 0;
+    if (!PEM_read_bio(b, &name, &hdr, &der, &len))
+        return -1;
+    BIO_free(b);
+    char *text = strdup(g_leafI);
+    for (size_t i = 0; i < ns; i++) {
+        char *blk;
+        unsigned char *tmp = malloc(len);
+        memcpy(tmp, der, len);
+        switch (shape[i]) {
+        case 'G': blk = strdup(i == 0 ? g_inter : g_root); break;
+        case 'T': blk = pem_block("CERTIFICATE", tmp, (int)(len * 6 / 10)); break;
+        case 'F': tmp[0] ^= 0x01; blk = pem_block("CERTIFICATE", tmp, (int)len); break;
+        case 'E': blk = pem_block("CERTIFICATE", tmp, 0); break;
+        default: blk = pem_block("VERIF FOREIGN BLOCK", tmp, (int)len); break;
+        }
+        char *t2 = cat2(text, blk);
+        free(text);
+        free(blk);
+        free(tmp);
+        text = t2;
+    }
+    g_chain_text = text;
+    ERR_clear_error();
+    return 0;
+}
+
 static int parse_kind(const char *s)
 {
+    if (!strncmp(s, "chain-", 6))
+        return build_chain(s + 6) < 0 ? -1 : BK_CHAIN;
     for (int i = 1; i <= BK_MISMATCH; i++)
         if (!strcmp(s, BK_NAME[i]))
             return i;
@@ -535,6 +713,20 @@ static int setup_family(const char *fam)
         add_op_thread(OP_CONN, CFG_DEF, CFG_INH, 2);
         add_op(OP_X, 0, 0);
         add_op(OP_XS, 0, 0);
+    } else if (!strcmp(fam, "netcrl")) {
+        /* CRL checking with every file left to the per-namespace default naming: exactly crl_<ns>.pem governs */
+        g_use_netns = 1;
+        g_use_crl = 1;
+        add_op(OP_SN, 0, 0);
+        add_op(OP_SN, 1, 0);
+        add_op(OP_SN, 2, 0);
+        add_op(OP_SWC, 0, 0);
+        add_op(OP_SRV, CFG_DEFCRL, 0);
+        add_op(OP_CONN, CFG_REV, CFG_INH);
+        add_op(OP_CONN, CFG_VAL, CFG_INH);
+        add_op(OP_CONN, CFG_DEFCRL, CFG_INH);
+        add_op(OP_X, 0, 0);
+        add_op(OP_XS, 0, 0);
     } else if (!strcmp(fam, "kube")) {
         /* credential paths whose FINAL component is a symlink that is never replaced; designated through the
            default directory (ENK + def) and through by-file attributes (kube); c2 is a client of the other
@@ -566,6 +758,7 @@ static int setup_family(const char *fam)
         add_op(OP_XS, 0, 0);
     } else if (!strncmp(fam, "bad:", 4)) {
         char form[16], kind[16], item[16];
+        g_bk_label[0] = 0;
         if (sscanf(fam, "bad:%15[^:]:%15[^:]:%15s", form, kind, item) != 3)
             return -1;
         g_bad_form = !strcmp(form, "file") ? F_FILE : !strcmp(form, "value") ? F_VALUE : 0;
@@ -576,6 +769,17 @@ static int setup_family(const char *fam)
                 g_bad_item = i;
         if (!g_bad_form || g_bad_kind < 0 || g_bad_item < 0)
             return -1;
+        snprintf(g_bk_label, sizeof g_bk_label, "%s", kind);
+        if (g_bad_kind == BK_CHAIN && g_bad_item != IT_CERT)
+            return -1;
+        if (g_bad_kind == BK_CHAIN) {
+            /* signatures name the kind of the first damaged block (the root cause), not the whole shape */
+            size_t k = strcspn(g_chain_shape, "TFE");
+            if (g_chain_shape[k])
+                snprintf(g_bk_label, sizeof g_bk_label, "chain-first-damaged-%c", g_chain_shape[k]);
+            else
+                snprintf(g_bk_label, sizeof g_bk_label, "chain-well-formed");
+        }
         if (g_bad_kind == BK_MISMATCH && g_bad_item != IT_KEY)
             return -1;
         if (g_bad_form == F_VALUE && (g_bad_kind == BK_MISSING || g_bad_kind == BK_DANGLING || g_bad_kind == BK_DIR))
@@ -660,6 +864,12 @@ static void model_apply(struct model *m, const struct op *o, struct expect *e)
     case OP_FLD: m->w.link_set = m->w.link_set == SET_A ? SET_B : SET_A; break;
     case OP_FLF: m->w.flink_set = m->w.flink_set == SET_A ? SET_B : SET_A; break;
     case OP_ENV: m->w.env_dir = m->w.env_dir == D_LIVE ? D_LINK : D_LIVE; break;
+    case OP_SWC: {
+        int t = m->w.crl_ns[1];
+        m->w.crl_ns[1] = m->w.crl_ns[2];
+        m->w.crl_ns[2] = t;
+        break;
+    }
     case OP_KDP: m->w.kdata ^= 1; break;
     case OP_KRW: case OP_KMV: {
         int g = m->w.kdata;
@@ -738,7 +948,7 @@ static void model_apply(struct model *m, const struct op *o, struct expect *e)
         /* alternative explanation used only to name the cause of a mismatch */
         e->da_h1 = s->fin;
         desig_override(&e->da_h1, &over);
-        e->established = e->c.ok && e->a.ok && ref_accepts(&e->a, e->c.trust) && ref_accepts(&e->c, e->a.trust);
+        e->established = e->c.ok && e->a.ok && ref_accepts(&e->a, &e->c) && ref_accepts(&e->c, &e->a);
         if (e->established)
             m->conn_id[m->nconn++] = m->next_id++;
         break;
@@ -765,7 +975,7 @@ static void model_apply(struct model *m, const struct op *o, struct expect *e)
     m->ophist[m->nsteps] = o->k;
 }
 
-static int world_is_update(int k) { return k <= OP_FIX || (k >= OP_KDP && k <= OP_ENK); }
+static int world_is_update(int k) { return k <= OP_FIX || (k >= OP_KDP && k <= OP_ENK) || k == OP_SWC; }
 
 /* why does the observed identity differ from the designated one?  (names the signature) */
 static void mismatch_cause(const struct model *m, const struct desig *d_doc, const struct desig *d_h1,
@@ -979,7 +1189,7 @@ static void fs_setup(const struct world *w)
             if (i == g_bad_item)
                 make_bad(p, i);
             else
-                write_new(p, g_set[SET_A][i], T0);
+                write_new(p, g_bad_kind == BK_CHAIN ? bad_text(i) : g_set[SET_A][i], T0);
         }
     }
     if (g_use_kube) {
@@ -1012,6 +1222,10 @@ static void fs_setup(const struct world *w)
                 path_of(D_NS0 + ns, i, t, sizeof t);
                 write_new(t, g_set[NS_SET[ns]][i], T0);
             }
+        for (int ns = 0; ns < 3 && g_use_crl; ns++) {
+            snprintf(t, sizeof t, "%s/nsd/crl%s.pem", g_scratch, NS_SUFFIX[ns]);
+            write_new(t, g_crl[w->crl_ns[ns]], T0);
+        }
     }
     setenv("XCM_TLS_CERT", p, 1);
 }
@@ -1119,6 +1333,15 @@ static void fs_update(const struct op *o, const struct world *after)
             }
         }
         break;
+    case OP_SWC:
+        for (int ns = 1; ns <= 2; ns++) {
+            snprintf(p, sizeof p, "%s/nsd/crl%s.pem", g_scratch, NS_SUFFIX[ns]);
+            snprintf(t, sizeof t, "%s.new", p);
+            write_new(t, g_crl[after->crl_ns[ns]], fresh_mtime());
+            if (rename(t, p) < 0)
+                internal("rename %s: %s", p, strerror(errno));
+        }
+        break;
     case OP_ENK:
         snprintf(p, sizeof p, "%s/%s", g_scratch, D_NAME[after->env_dir]);
         setenv("XCM_TLS_CERT", p, 1);
@@ -1126,14 +1349,22 @@ static void fs_update(const struct op *o, const struct world *after)
     case OP_BRK:
         path_of(D_LIVE, g_bad_item, p, sizeof p);
         make_bad(p, g_bad_item);
+        if (g_bad_kind == BK_CHAIN) {       /* the chain's leaf comes with its own key */
+            path_of(D_LIVE, IT_KEY, p, sizeof p);
+            make_bad(p, IT_KEY);
+        }
         break;
     case OP_FIX:
-        path_of(D_LIVE, g_bad_item, p, sizeof p);
-        remove_any(p);
-        snprintf(t, sizeof t, "%s.new", p);
-        write_new(t, g_set[after->live_set][g_bad_item], fresh_mtime());
-        if (rename(t, p) < 0)
-            internal("rename %s: %s", p, strerror(errno));
+        for (int i = 0; i < NIT; i++) {
+            if (i != g_bad_item && !(g_bad_kind == BK_CHAIN && i == IT_KEY))
+                continue;
+            path_of(D_LIVE, i, p, sizeof p);
+            remove_any(p);
+            snprintf(t, sizeof t, "%s.new", p);
+            write_new(t, g_set[after->live_set][i], fresh_mtime());
+            if (rename(t, p) < 0)
+                internal("rename %s: %s", p, strerror(errno));
+        }
         break;
     default: break;
     }
@@ -1160,6 +1391,8 @@ static struct xcm_attr_map *attrs_of(int cfg)
     xcm_attr_map_add_bool(m, "xcm.blocking", false);
     struct desig d;
     cfg_desig(cfg, &d);
+    if (d.check_crl)
+        xcm_attr_map_add_bool(m, "tls.check_crl", true);
     for (int i = 0; i < NIT; i++) {
         char name[32], p[700];
         if (d.it[i].form == F_FILE) {
@@ -1254,7 +1487,7 @@ static const char *bad_label(void)
 {
     static char b[64];
     if (g_bad_form)
-        snprintf(b, sizeof b, "/bad=%s:%s:%s", g_bad_form == F_FILE ? "file" : "value", BK_NAME[g_bad_kind],
+        snprintf(b, sizeof b, "/bad=%s:%s:%s", g_bad_form == F_FILE ? "file" : "value", g_bk_label,
                  IT_NAME[g_bad_item]);
     else
         b[0] = 0;
@@ -1268,7 +1501,11 @@ static int check_local(const char *role, const char *cfgl, const struct ident *e
     char sig[200];
     if (!exp->ok) {
         if (!failed) {
-            snprintf(sig, sizeof sig, "C18/bad-material-accepted/role=%s/cfg=%s%s/tp=tls", role, cfgl, bad_label());
+            if (g_bad_kind == BK_CHAIN)
+                snprintf(sig, sizeof sig, "C18/bad-material-accepted/role=%s/bad=%s:%s/tp=tls", role,
+                         g_bad_form == F_FILE ? "file" : "value", g_bk_label);
+            else
+                snprintf(sig, sizeof sig, "C18/bad-material-accepted/role=%s/cfg=%s%s/tp=tls", role, cfgl, bad_label());
             violation(sig, "%s with material that is %s succeeded; it must fail with EPROTO", role, exp->why);
             return 0;
         }
@@ -1276,7 +1513,7 @@ static int check_local(const char *role, const char *cfgl, const struct ident *e
             /* the root cause is per call and kind of unreadable thing, not per item or configuration */
             if (g_bad_form)
                 snprintf(sig, sizeof sig, "C18/errno/role=%s/bad=%s:%s/got=%s/tp=tls", role,
-                         g_bad_form == F_FILE ? "file" : "value", BK_NAME[g_bad_kind], ename(err));
+                         g_bad_form == F_FILE ? "file" : "value", g_bk_label, ename(err));
             else
                 snprintf(sig, sizeof sig, "C18/errno/role=%s/cfg=%s/got=%s/tp=tls", role, cfgl, ename(err));
             violation(sig, "%s with material that is %s failed with %s; the documented errno is EPROTO", role,
@@ -1470,7 +1707,7 @@ static int do_conn(struct model *m, const struct op *o, const struct expect *e)
             if (e->da_h1.it[i].form != e->da_doc.it[i].form || e->da_h1.it[i].dir != e->da_doc.it[i].dir ||
                 e->da_h1.it[i].val != e->da_doc.it[i].val)
                 differ = 1;
-        int est_h1 = e->c.ok && h1.ok && ref_accepts(&h1, e->c.trust) && ref_accepts(&e->c, h1.trust);
+        int est_h1 = e->c.ok && h1.ok && ref_accepts(&h1, &e->c) && ref_accepts(&e->c, &h1);
         int est = !fail_errno;
         if (differ && o->c2 == CFG_INH && est != e->established && est == est_h1) {
             snprintf(sig, sizeof sig, "C18/identity/role=accept/cfg=%s/uses-XCM_TLS_CERT-of-server-creation/tp=tls", la);
